@@ -53,6 +53,9 @@ CLAIMED = {
  "C17": ("Signer V/network-id arithmetic, signature value ranges and hash binding on symbolic V/R/S/ids with recovery and rlpHash idealised; the real ApplyMessageEntry (preCheck, buyGas, IntrinsicGas, UseGas, refundGas, GasPool) on the real StateDB with an arbitrary gas-monotone converter step: refusals change nothing, exact charge, refund <= half.",
          "Trusted: gosym, z3; secp256k1 and rlpHash injectivity idealised; one of r,s full length. One open known finding (pre-refund gasUsed).",
          "solver-based symbolic execution of go/ssa (bv / SMT Int)"),
+ "C18": ("Bounded symbolic histories over the real download queue (Schedule, ReserveBodies, DeliverBodies, CancelBodies, Revoke, ExpireBodies, Results, real prque, peer lacking sets) in FullSync: ghost accounting of every header across task queue / peer requests / done set, strictly ascending gap-free single release with the body matching the transaction root, refusals of unsolicited data, then completion with one honest peer.",
+         "Trusted: gosym, z3; Header.Hash / DeriveSha idealised as injective; 6-slot result window. NOT covered: liveness beyond the completion phase, goroutine layer of downloader.go/fetcher.go, receipts/FastSync, skeleton filling, memory throttling.",
+         "solver-based bounded symbolic execution of go/ssa (histories of 3 / 5 operations, 2 / 3 headers, 2 peers)"),
  "C19": ("Scheduler half: the real trie.Sync (NewSync, Missing, Process, schedule, children, commit, Pending) and priority queue over every small source DAG given by a symbolic child table and every response order / repetition / unsolicited delivery within the bound: children complete before parents, Pending()=0 exactly when every reachable node is stored, refusals change nothing, counters never negative, nothing stored twice.",
          "Trusted: gosym, z3; decodeNode replaced by a table lookup. NOT covered: that delivered bytes hash to the requested key (keccak in goroutines of triesync.go), state-sync leaf callback, content equality after sync.",
          "solver-based symbolic execution of go/ssa (bv) with symbolic DAG shape and responses"),
